@@ -209,6 +209,7 @@ Proof. intros b kd t s H. unfold rq_step. do 3 (destruct t as [|t]; [lia|]). ref
 
 Definition rq_reach (b : bool) (kd : nat) : list rq_st :=
   explore rq_st rq_st_beq (rq_step b kd) 3 20000 [rq_init] [].
+(* [rq_good b kd s]: from s, the round-robin continuation rq_rr ends with the update sent *)
 Definition rq_good (b : bool) (kd : nat) (s : rq_st) : bool := rq_sent (run rq_st (rq_step b kd) rq_rr s).
 
 Lemma rq_closed : forall kd, kd < 2 -> closed rq_st rq_st_beq (rq_step false kd) 3 (rq_reach false kd) = true.
@@ -221,7 +222,7 @@ Proof. intros kd H. do 2 (destruct kd as [|kd]; [vm_compute; reflexivity|]). exf
 (* the application's last operation was a mark (kind 0) or a copy (kind 1): however the three threads
    were scheduled so far, letting them run on (round robin) ends with the update sent *)
 Theorem request_wakes_output : forall kd sched, kd < 2 ->
-  rq_sent (run rq_st (rq_step false kd) rq_rr (run rq_st (rq_step false kd) sched rq_init)) = true.
+  rq_good false kd (run rq_st (rq_step false kd) sched rq_init) = true.
 Proof.
   intros kd sched H.
   exact (all_schedules rq_st rq_st_beq internal_rq_st_dec_bl (rq_step false kd) 3 (rq_bound false kd)
@@ -239,7 +240,7 @@ Proof. apply (mem_in _ _ internal_rq_st_dec_bl). vm_compute. reflexivity. Qed.
 Lemma rq_cur_good : forallb (rq_good false 2) rq_cur_reach = true.
 Proof. vm_compute. reflexivity. Qed.
 Theorem request_wakes_output_cursor : forall sched,
-  rq_sent (run rq_st (rq_step false 2) rq_rr (run rq_st (rq_step false 2) sched rq_cur_init)) = true.
+  rq_good false 2 (run rq_st (rq_step false 2) sched rq_cur_init) = true.
 Proof.
   intros sched.
   exact (all_schedules rq_st rq_st_beq internal_rq_st_dec_bl (rq_step false 2) 3 (rq_bound false 2)
